@@ -57,7 +57,7 @@ Theorem C05_wire : forall h id v,
   fixed_ok h -> extension h = true -> exts_inv h ->
   get_extension h id = Some v ->
   (header_marshal h = Err EShortBuffer /\ zlen v mod 4 <> 0 /\
-   extension_profile h <> profile_one_byte /\ extension_profile h <> profile_two_byte)
+   extension_profile h <> profile_one_byte /\ ext_form (extension_profile h) <> profile_two_byte)
   \/ (exists bs r, header_marshal h = Ok bs /\ header_unmarshal_into empty_header bs = Ok r /\
                    get_extension (hr_header r) id = Some v).
 Proof. exact accepted_survives_wire. Qed.
